@@ -35,8 +35,10 @@ InRange2(il, n) == SmallIdx(il) /\ IdxVal(il) + 1 < n            \* il + 1 < n, 
 Limbs(i) == <<0, 0, i \div 65536, i % 65536>>                    \* for the bounded models
 
 (* the answer a read of index il must give *)
-Read(il) == IF InRange(il, Len(seq)) THEN Some(seq[IdxVal(il) + 1]) ELSE None
-Read2(il) == IF InRange2(il, Len(seq)) THEN Some(<<seq[IdxVal(il) + 1], seq[IdxVal(il) + 2]>>) ELSE None
+ReadOf(s, il) == IF InRange(il, Len(s)) THEN Some(s[IdxVal(il) + 1]) ELSE None
+Read2Of(s, il) == IF InRange2(il, Len(s)) THEN Some(<<s[IdxVal(il) + 1], s[IdxVal(il) + 2]>>) ELSE None
+Read(il) == ReadOf(seq, il)
+Read2(il) == Read2Of(seq, il)
 
 Hows == {"value", "none", "err", "panic"}
 Refusals == {"none", "err", "panic"}
@@ -62,24 +64,31 @@ Finish(ok) == /\ built
               /\ IF ok THEN UNCHANGED pvars ELSE seq' = <<>> /\ built' = FALSE
 
 (* ---- reads ---- *)
-(* get(i) -> r, delivered as `how`: a value, None, Err, or a panic *)
-Get(il, r, how, panicOK) ==
+(* The ...OK operators are state predicates ("this answer is allowed now"); the actions add  *)
+(* UNCHANGED.  get(i) -> r, delivered as `how`: a value, None, Err, or a panic.              *)
+GetOK(il, r, how, panicOK) ==
     /\ built
     /\ r = Read(il)
-    /\ how = (IF r = None THEN how ELSE "value")
-    /\ r = None => how \in Refusals /\ (how = "panic" => panicOK)
-    /\ UNCHANGED pvars
+    /\ IF r = None THEN how \in Refusals /\ (how = "panic" => panicOK) ELSE how = "value"
 (* get2(i) -> (seq[i], seq[i+1]) *)
-Get2(il, r, how, panicOK) ==
+Get2OK(il, r, how, panicOK) ==
     /\ built
     /\ r = Read2(il)
-    /\ how = (IF r = None THEN how ELSE "value")
-    /\ r = None => how \in Refusals /\ (how = "panic" => panicOK)
-    /\ UNCHANGED pvars
+    /\ IF r = None THEN how \in Refusals /\ (how = "panic" => panicOK) ELSE how = "value"
+(* The static fast_get(data, bits, mask, idx) of UintVecMin0 / ZipIntVec sees only the padded   *)
+(* byte buffer, not the element count: inside the vector it must return the element; an index   *)
+(* of 2^40 or more with bits > 0 addresses bytes no buffer has and must be refused; between the *)
+(* two (padding, zero-width elements) the property says nothing.                                *)
+FarIdx(il) == il[1] > 0 \/ il[2] >= 256                           \* il >= 2^40
+FastGetOK(il, bits, r, how) ==
+    /\ built
+    /\ InRange(il, Len(seq)) => r = Read(il) /\ how = "value"
+    /\ (FarIdx(il) /\ bits > 0) => r = None /\ how \in {"none", "err"}
+    /\ (r = None) = (how # "value")
 (* number of blocks of bs elements *)
 NBlocks(bs) == (Len(seq) + bs - 1) \div bs
 (* get_block(b, out): out[1..bs] filled with block b; the tail of the last block beyond Len is unspecified *)
-GetBlock(bl, bs, ok, out) ==
+GetBlockOK(bl, bs, ok, out) ==
     /\ built /\ bs > 0
     /\ IF InRange(bl, NBlocks(bs))
        THEN /\ ok
@@ -87,8 +96,20 @@ GetBlock(bl, bs, ok, out) ==
             /\ LET base == IdxVal(bl) * bs IN
                \A j \in 1..bs : base + j <= Len(seq) => out[j] = seq[base + j]
        ELSE ~ok
-    /\ UNCHANGED pvars
+Get(il, r, how, panicOK) == GetOK(il, r, how, panicOK) /\ UNCHANGED pvars
+Get2(il, r, how, panicOK) == Get2OK(il, r, how, panicOK) /\ UNCHANGED pvars
+FastGet(il, bits, r, how) == FastGetOK(il, bits, r, how) /\ UNCHANGED pvars
+GetBlock(bl, bs, ok, out) == GetBlockOK(bl, bs, ok, out) /\ UNCHANGED pvars
 LenIs(n) == built /\ n = Len(seq) /\ UNCHANGED pvars
+
+(* a batch of single reads logged as one event: g[k].k names the call *)
+ProbeOK(p, panicOK) ==
+    CASE p.k = "get" -> GetOK(p.i, p.r, p.how, panicOK)
+      [] p.k = "get2" -> Get2OK(p.i, p.r, p.how, panicOK)
+      [] p.k = "fast_get" -> FastGetOK(p.i, p.bits, p.r, p.how)
+      [] p.k = "get_block" -> GetBlockOK(p.i, p.bs, p.ok, p.out)
+      [] OTHER -> FALSE
+Probes(g, panicOK) == built /\ (\A k \in 1..Len(g) : ProbeOK(g[k], panicOK)) /\ UNCHANGED pvars
 
 (* ---- batch reads: one event carries a complete read-back ---- *)
 (* out[i] = get(i-1) for every i in 1..len(); an in-range None/Err is logged as a non-numeric string *)
